@@ -315,14 +315,14 @@ def find_irrelevant_type(etype: tp.Type, types: List[tp.Type],
     if etype == factory.get_any_type():
         return None
 
-    if isinstance(etype, tp.TypeParameter):
+    # The bound of a type variable may be a type variable itself (A : X : V).
+    while isinstance(etype, tp.TypeParameter):
         if etype.bound is None or etype.bound == factory.get_any_type():
             # Any type but the top type is irrelevant to such a type variable.
             return choose_type([t for t in types
                                 if _cls2type(t) != factory.get_any_type()],
                                only_regular=True)
-        else:
-            etype = etype.bound
+        etype = etype.bound
 
     if etype.is_primitive() and hasattr(etype, 'box_type'):
         # A primitive type has no supertypes of its own, but its values are
